@@ -119,6 +119,13 @@ func builtinDateSetTime(call FunctionCall) Value {
 }
 
 func builtinDateBeforeSet(call FunctionCall, argumentLimit int, timeLocal bool) (*object, *dateObject, *ecmaTime, []int) {
+	return builtinDateBeforeSetFrom(call, argumentLimit, timeLocal, false)
+}
+
+// builtinDateBeforeSetFrom is builtinDateBeforeSet; with zeroIfNaN an invalid
+// date counts as time +0, which is step 1 of the full-year setters (15.9.5.40,
+// 15.9.5.41 and B.2.5).
+func builtinDateBeforeSetFrom(call FunctionCall, argumentLimit int, timeLocal, zeroIfNaN bool) (*object, *dateObject, *ecmaTime, []int) {
 	obj := call.thisObject()
 	date := dateObjectOf(call.runtime, call.thisObject())
 
@@ -141,7 +148,14 @@ func builtinDateBeforeSet(call FunctionCall, argumentLimit int, timeLocal bool) 
 		valueList[index] = int(nm.int64)
 	}
 	if date.isNaN {
-		return nil, nil, nil, nil
+		if !zeroIfNaN || invalid {
+			return nil, nil, nil, nil
+		}
+		location := time.UTC
+		if timeLocal {
+			location = time.Local //nolint:gosmopolitan
+		}
+		date.SetTime(time.Date(1970, 1, 1, 0, 0, 0, 0, location))
 	}
 	if invalid {
 		obj.value = invalidDateObject
@@ -570,7 +584,7 @@ func builtinDateSetUTCMonth(call FunctionCall) Value {
 }
 
 func builtinDateSetYear(call FunctionCall) Value {
-	obj, date, ecmaTime, value := builtinDateBeforeSet(call, 1, true)
+	obj, date, ecmaTime, value := builtinDateBeforeSetFrom(call, 1, true, true)
 	if ecmaTime == nil {
 		return NaNValue()
 	}
@@ -587,7 +601,7 @@ func builtinDateSetYear(call FunctionCall) Value {
 }
 
 func builtinDateSetFullYear(call FunctionCall) Value {
-	obj, date, ecmaTime, value := builtinDateBeforeSet(call, 3, true)
+	obj, date, ecmaTime, value := builtinDateBeforeSetFrom(call, 3, true, true)
 	if ecmaTime == nil {
 		return NaNValue()
 	}
@@ -606,7 +620,7 @@ func builtinDateSetFullYear(call FunctionCall) Value {
 }
 
 func builtinDateSetUTCFullYear(call FunctionCall) Value {
-	obj, date, ecmaTime, value := builtinDateBeforeSet(call, 3, false)
+	obj, date, ecmaTime, value := builtinDateBeforeSetFrom(call, 3, false, true)
 	if ecmaTime == nil {
 		return NaNValue()
 	}
